@@ -9,6 +9,7 @@ import (
 	"strings"
 	"sync"
 
+	"github.com/zishang520/engine.io/v2/events"
 	"github.com/zishang520/engine.io/v2/types"
 
 	"verifh/rep"
@@ -767,8 +768,59 @@ func ids(rs []reg) []int {
 	return out
 }
 
+// emitterAPI is the part of the emitter the property talks about; it is implemented by
+// types.NewEventEmitter(), by events.New() and by the package-level functions of events/ (which
+// forward to a process-wide default emitter).
+type emitterAPI interface {
+	AddListener(types.EventName, ...types.Listener) error
+	On(types.EventName, ...types.Listener) error
+	Once(types.EventName, ...types.Listener) error
+	Emit(types.EventName, ...any)
+	RemoveListener(types.EventName, types.Listener) bool
+	RemoveAllListeners(types.EventName) bool
+	ListenerCount(types.EventName) int
+	Listeners(types.EventName) []types.Listener
+	EventNames() []types.EventName
+	Clear()
+	Len() int
+}
+
+type pkgEmitter struct{}
+
+func (pkgEmitter) AddListener(e types.EventName, l ...types.Listener) error {
+	return events.AddListener(e, l...)
+}
+func (pkgEmitter) On(e types.EventName, l ...types.Listener) error   { return events.On(e, l...) }
+func (pkgEmitter) Once(e types.EventName, l ...types.Listener) error { return events.Once(e, l...) }
+func (pkgEmitter) Emit(e types.EventName, a ...any)                  { events.Emit(e, a...) }
+func (pkgEmitter) RemoveListener(e types.EventName, l types.Listener) bool {
+	return events.RemoveListener(e, l)
+}
+func (pkgEmitter) RemoveAllListeners(e types.EventName) bool { return events.RemoveAllListeners(e) }
+func (pkgEmitter) ListenerCount(e types.EventName) int       { return events.ListenerCount(e) }
+func (pkgEmitter) Listeners(e types.EventName) []types.Listener {
+	return events.Listeners(e)
+}
+func (pkgEmitter) EventNames() []types.EventName { return events.EventNames() }
+func (pkgEmitter) Clear()                        { events.Clear() }
+func (pkgEmitter) Len() int                      { return events.Len() }
+
 func seqEmitter(rng *rand.Rand, nops int) (key, msg string, trace []string) {
-	e := types.NewEventEmitter()
+	return seqEmitterOn(types.NewEventEmitter(), rng, nops)
+}
+
+// the events/ package: its constructor and its package-level facade (the default emitter is
+// process-wide state, so it is emptied first)
+func seqEmitterEventsNew(rng *rand.Rand, nops int) (key, msg string, trace []string) {
+	return seqEmitterOn(events.New(), rng, nops)
+}
+
+func seqEmitterEventsPkg(rng *rand.Rand, nops int) (key, msg string, trace []string) {
+	events.Clear()
+	return seqEmitterOn(pkgEmitter{}, rng, nops)
+}
+
+func seqEmitterOn(e emitterAPI, rng *rand.Rand, nops int) (key, msg string, trace []string) {
 	cands := []emState{{}}
 	evts := []types.EventName{"x", "y"}
 	uid := 0
@@ -947,7 +999,30 @@ func seqEmitter(rng *rand.Rand, nops int) (key, msg string, trace []string) {
 			cands = []emState{{}}
 		case 11:
 			op = "EventNames/Len"
-			pan = tryOp(func() { e.EventNames(); e.Len() })
+			var names []types.EventName
+			pan = tryOp(func() { names = e.EventNames(); e.Len() })
+			if pan == nil {
+				// every event that has a registration in every candidate state must be named, and no
+				// name outside the two events used here may appear
+				have := map[string]bool{}
+				for _, n := range names {
+					have[string(n)] = true
+					if n != "x" && n != "y" {
+						return "emitter-eventnames", fmt.Sprintf("EventNames() = %v names an event nobody registered", names), append(trace, op)
+					}
+				}
+				for _, en := range []string{"x", "y"} {
+					all := true
+					for _, c := range cands {
+						if len(c[en]) == 0 {
+							all = false
+						}
+					}
+					if all && !have[en] {
+						return "emitter-eventnames", fmt.Sprintf("EventNames() = %v misses %q which has listeners", names, en), append(trace, op)
+					}
+				}
+			}
 		}
 		trace = append(trace, op)
 		if pan != nil {
